@@ -335,5 +335,5 @@ pub fn run(ctx: &mut Ctx) {
 	ctx.rule = "rooted graphs of 1-8 versions (each later version has 1-2 parents among the earlier ones: chains, trees, diamonds; plain and client~server names); each version's mappings derive from its first parent by a generated edit script (entries dropped/added, renames, comment edits at all levels), every edge file is the harness-written .tinydiff of the model-level diff between the contracted sets, the root file the harness-written .tiny with extended inner names; files are created in two generated orders inside fresh tmpfs directories (tmpfs lists in reverse creation order). Oracle: for every version and every name/half: get() finds it with the right split kind, and apply_diffs == extend(model of that version) (or an error where the outer class of a named nested class is gone); both creation orders give the same answers; malformed variants (no root, two roots, cycle through / below the root, version only below an undeclared parent, unknown name) must be refused by resolve or by every query on the defect. Non-trivial = >=3 versions and a queried path of >=2 edges in a well-formed directory; distinct by case hash".into();
 	ctx.assume("in a diamond all parents lead to the same child mappings (every path is valid)");
 	ctx.assume("directory listing orders other than those tmpfs produces for the generated creation orders are not reachable");
-	ctx.run_sub("version_graph", ctx.tier.pick(24000, 1200000), strategy, check);
+	ctx.run_sub("version_graph", ctx.tier.pick(72000, 1200000), strategy, check);
 }
